@@ -167,6 +167,18 @@ theorem opEnableUser_cases (n : Net) (y : Nat) (u : String) :
       · exact Or.inr rfl
       · exact Or.inl rfl
 
+theorem opAddUserBypass_cases (n : Net) (y : Nat) (u p : String) (adm : Bool) :
+    (opAddUserBypass n y u p adm).1 = n ∨
+    ∃ nd, n.node y = some nd ∧ nd.findUser u = none ∧
+      (opAddUserBypass n y u p adm).1 = n.upd y (Node.addUser { name := u, password := p, admin := adm }) := by
+  unfold opAddUserBypass
+  split
+  · exact Or.inl rfl
+  · rename_i nd hnd
+    split
+    · rename_i h; exact Or.inr ⟨nd, hnd, by simpa using h, rfl⟩
+    · exact Or.inl rfl
+
 theorem opUsmLogin_cases (n : Net) (y : Nat) (u p : String) (peer : Nat) :
     ((opUsmLogin n y u p peer).1 = n ∧ (opUsmLogin n y u p peer).2 ≠ .success) ∨
     ∃ b, n.node y = some b ∧ b.isOn = true ∧ b.loginOk u p = true ∧ b.rem.length < b.maxRemote ∧
@@ -398,6 +410,12 @@ theorem Pre.enableUser (F : Pre R) (n : Net) (y : Nat) (u : String) (h : ∀ a, 
   · exact F.rel_refl n
   · exact F.rel_upd (F.rel_refl n) y _ h
 
+theorem Pre.addUserBypass (F : Pre R) (n : Net) (y : Nat) (u p : String) (adm : Bool)
+    (h : ∀ a w, R y a (a.addUser w)) : Net.Rel R n (opAddUserBypass n y u p adm).1 := by
+  rcases opAddUserBypass_cases n y u p adm with h0 | ⟨nd, _, _, h0⟩ <;> rw [h0]
+  · exact F.rel_refl n
+  · exact F.rel_upd (F.rel_refl n) y _ (fun a => h a _)
+
 theorem Pre.usmLogin (F : Pre R) (n : Net) (y : Nat) (u p : String) (peer : Nat) (h : ∀ a s, R y a (a.addSession s)) :
     Net.Rel R n (opUsmLogin n y u p peer).1 := by
   rcases opUsmLogin_cases n y u p peer with ⟨h0, _⟩ | ⟨b, _, _, _, _, h0, _⟩ <;> rw [h0]
@@ -521,6 +539,15 @@ theorem Frame.exec (F : Frame R) (E : Edits R)
   | startup => intro _ _ _ n y; exact F.ofData n _ _ (opStartup_cases n _)
   | reset => intro _ _ _ n y; exact F.ofData n _ _ (opReset_cases n _)
 
+/-- the ACL edit touches no node -/
+theorem rel_setBlock (hR : ∀ j a, R j a a) (n : Net) (x y : Nat) (on : Bool) : Net.Rel R n (opSetBlock n x y on).1 :=
+  ⟨rfl, fun j a h => ⟨a, h, hR j a⟩⟩
+
+@[simp] theorem setBlock_node (n : Net) (x y : Nat) (on : Bool) (j : Nat) : (opSetBlock n x y on).1.node j = n.node j := rfl
+@[simp] theorem setBlock_nextId (n : Net) (x y : Nat) (on : Bool) : (opSetBlock n x y on).1.nextId = n.nextId := rfl
+@[simp] theorem setBlock_time (n : Net) (x y : Nat) (on : Bool) : (opSetBlock n x y on).1.time = n.time := rfl
+@[simp] theorem setBlock_stuck (n : Net) (x y : Nat) (on : Bool) : (opSetBlock n x y on).1.stuck = n.stuck := rfl
+
 /-- every operation -/
 theorem Frame.step (F : Frame R) (E : Edits R)
     (hD : ∀ n y u, Net.Rel R n (opDisableUser n y u).1) (hL : ∀ n y u p, Net.Rel R n (localLogin n y u p).1)
@@ -530,9 +557,11 @@ theorem Frame.step (F : Frame R) (E : Edits R)
   cases op with
   | req y c => exact F.exec E hD c (fun _ => hL) hS hF n y
   | enableUser y u => exact F.toPre.enableUser n y u (fun a => hEn y a u)
+  | addUserBypass y u p adm => exact F.toPre.addUserBypass n y u p adm (E.addUser y)
   | localLogin y u p => simp only [Primaite.Session.step]; rw [opLocalLogin_fst]; exact hL n y u p
   | localLogout y => exact F.localLogout n y
   | tick => exact F.tick n
+  | setBlock x y on => exact rel_setBlock F.refl n x y on
 
 /-- the common case: the relation tolerates `disabled := true` and a new local session unconditionally -/
 theorem Frame.step' (F : Frame R) (E : Edits R) (hD : ∀ j a u, R j a (a.setDisabled u)) (hL : ∀ j a l, R j a (a.setLoc l))
@@ -547,10 +576,10 @@ theorem Frame.step' (F : Frame R) (E : Edits R) (hD : ∀ j a u, R j a (a.setDis
 /-- If a reflexive, transitive relation `P` between networks holds across every command that carries no further command,
 across everything that only tears sessions / connections down, across the bookkeeping of an accepted terminal command
 (`last_active_step`, the local login and its connection), then it holds across every request, nested to any depth. -/
-theorem exec_induction'' (P : Net → Net → Prop) (refl : ∀ n, P n n) (trans : ∀ a b c, P a b → P b c → P a c)
+theorem exec_induction_now (P : Net → Net → Prop) (refl : ∀ n, P n n) (trans : ∀ a b c, P a b → P b c → P a c)
     (hAtomic : ∀ c, c.atomic = true → ∀ n y, P n (execCmd c n y).1)
     (hDisc : ∀ n y cid, P n (disconnect n.fuel n y cid))
-    (hTouch : ∀ n y cid t, P n (n.upd y (Node.touch cid t)))
+    (hTouch : ∀ n y cid, P n (n.upd y (Node.touch cid n.time)))
     (hLogin : ∀ n y u p, P n (localLogin n y u p).1)
     (hLocal : ∀ n y u p id, (localLogin n y u p).2 = some id →
       P n ((localLogin n y u p).1.upd y (Node.addConn ⟨id, none⟩))) :
@@ -570,7 +599,7 @@ theorem exec_induction'' (P : Net → Net → Prop) (refl : ∀ n, P n n) (trans
     rcases opRemoteCmdK_cases (fun m => execCmd c m z) n y z with ⟨h0, _⟩ | ⟨a, b, cn, _, ⟨_, _, h0, _⟩ | ⟨_, h0, _⟩⟩ <;>
       simp only [execCmd] <;> rw [h0]
     · exact refl n
-    · exact trans _ _ _ (hTouch _ _ _ _) (ih _ _)
+    · exact trans _ _ _ (hTouch _ _ _) (ih _ _)
     · exact hDisc _ _ _
   | file k => exact hAtomic _ rfl
   | addUser u p adm => exact hAtomic _ rfl
@@ -584,6 +613,17 @@ theorem exec_induction'' (P : Net → Net → Prop) (refl : ∀ n, P n n) (trans
   | shutdown => exact hAtomic _ rfl
   | startup => exact hAtomic _ rfl
   | reset => exact hAtomic _ rfl
+
+/-- the same with the session's clock set to an arbitrary value (for relations that do not look at clocks) -/
+theorem exec_induction'' (P : Net → Net → Prop) (refl : ∀ n, P n n) (trans : ∀ a b c, P a b → P b c → P a c)
+    (hAtomic : ∀ c, c.atomic = true → ∀ n y, P n (execCmd c n y).1)
+    (hDisc : ∀ n y cid, P n (disconnect n.fuel n y cid))
+    (hTouch : ∀ n y cid t, P n (n.upd y (Node.touch cid t)))
+    (hLogin : ∀ n y u p, P n (localLogin n y u p).1)
+    (hLocal : ∀ n y u p id, (localLogin n y u p).2 = some id →
+      P n ((localLogin n y u p).1.upd y (Node.addConn ⟨id, none⟩))) :
+    ∀ (c : Cmd) (n : Net) (y : Nat), P n (execCmd c n y).1 :=
+  exec_induction_now P refl trans hAtomic hDisc (fun n y cid => hTouch n y cid n.time) hLogin hLocal
 
 theorem exec_induction' (P : Net → Net → Prop) (refl : ∀ n, P n n) (trans : ∀ a b c, P a b → P b c → P a c)
     (hAtomic : ∀ c, c.atomic = true → ∀ n y, P n (execCmd c n y).1)
@@ -615,7 +655,9 @@ def KeepPath : Nat → Node → Node → Prop := fun _ a b => b.nic = a.nic ∧ 
 theorem keepPath_pre : Pre KeepPath :=
   { refl := fun _ _ => ⟨rfl, rfl⟩, trans := fun _ _ _ _ h1 h2 => ⟨h2.1.trans h1.1, h2.2.trans h1.2⟩ }
 
-theorem canDeliver_of_keepPath {n m : Net} (h : Net.Rel KeepPath n m) (x y : Nat) : canDeliver m x y = canDeliver n x y := by
+theorem canDeliver_of_keepPath {n m : Net} (h : Net.Rel KeepPath n m) (hbl : m.blocked = n.blocked) (hhp : m.hairpin = n.hairpin)
+    (x y : Nat) :
+    canDeliver m x y = canDeliver n x y := by
   unfold canDeliver
   cases hx : n.node x with
   | none => simp [h.none hx]
@@ -625,11 +667,11 @@ theorem canDeliver_of_keepPath {n m : Net} (h : Net.Rel KeepPath n m) (x y : Nat
     | none => simp [h.none hy, ha']
     | some b =>
       obtain ⟨b', hb', hbb⟩ := h.node y b hy
-      simp [ha', hb', haa.1, hbb.1, hbb.2]
+      simp [ha', hb', haa.1, hbb.1, hbb.2, Net.open, hbl, hhp]
 
 theorem canDeliver_afterLogin (n : Net) (x y : Nat) (u : String) (i j : Nat) :
     canDeliver (afterLogin n x y u) i j = canDeliver n i j :=
-  canDeliver_of_keepPath (keepPath_pre.afterLogin n x y u (fun _ _ => ⟨rfl, rfl⟩) (fun _ _ => ⟨rfl, rfl⟩)) i j
+  canDeliver_of_keepPath (keepPath_pre.afterLogin n x y u (fun _ _ => ⟨rfl, rfl⟩) (fun _ _ => ⟨rfl, rfl⟩)) rfl rfl i j
 
 
 theorem Net.Rel.back_of_len {n m : Net} (h : Net.Rel R n m) {j : Nat} {b : Node} (hb : m.node j = some b) :
